@@ -114,6 +114,27 @@ pub fn expect_hdr(region: &[u8]) -> Expected {
         exp.u(format!("{p}.size"), it.size as u64);
         exp.is(format!("{p}.payload"), Val::Ext(it.off + 8, it.size as usize - 8));
     }
+    {
+        let n = w.items.len();
+        let mut ks = vec![0usize, 1, 2, n / 2, n.saturating_sub(1), n, n + 1];
+        ks.sort_unstable();
+        ks.dedup();
+        for k in ks {
+            let key = format!("w.nth{k}");
+            if k < n {
+                exp.is(key, Val::Ext(w.items[k].off, r8(w.items[k].size as usize)));
+            } else if w.panic_at.is_some() {
+                exp.panic(key);
+            } else {
+                exp.is(key, Val::None);
+            }
+        }
+        if w.panic_at.is_some() {
+            exp.panic("w.count_after1");
+        } else {
+            exp.u("w.count_after1", n.saturating_sub(1) as u64);
+        }
+    }
     match w.panic_at {
         Some(k) => {
             exp.panic(format!("w{k}"));
